@@ -49,6 +49,25 @@ func c12Walk(v any, prefix []string, out *[]c12Path) {
 	}
 }
 
+// c12Get returns the value at an exact path (nil when it does not exist)
+func c12Get(root any, path []string) any {
+	for _, k := range path {
+		switch t := root.(type) {
+		case map[string]any:
+			root = t[k]
+		case []any:
+			i, err := strconv.Atoi(k)
+			if err != nil || i < 0 || i >= len(t) {
+				return nil
+			}
+			root = t[i]
+		default:
+			return nil
+		}
+	}
+	return root
+}
+
 // c12Set applies `$v.path = nv` to the model; ok=false means the assignment must be refused
 func c12Set(root any, path []string, nv any) (any, bool) {
 	if len(path) == 0 {
@@ -278,7 +297,7 @@ func init() {
 					e.Steps = append(e.Steps, step)
 				}
 				dump("init", c12Step{})
-				copies, modsAfterCopy, deepNew := 0, 0, 0
+				copies, modsAfterCopy, deepNew, caseSiblings := 0, 0, 0, 0
 				nops := 3 + r.Intn(13)
 				for op := 0; op < nops; op++ {
 					k := r.Intn(10)
@@ -327,6 +346,20 @@ func init() {
 							}
 							base := maps[r.Intn(len(maps))]
 							path = append(append([]string{}, base...), fmt.Sprintf("new%d", op))
+							// or a key that differs from an existing sibling only in letter case:
+							// reads are forgiving about capitalisation, writes must still be exact
+							if bm, ok := c12Get(store[name], base).(map[string]any); ok && len(bm) > 0 && r.Intn(5) < 2 {
+								ks := sortedKeys(bm)
+								sib := ks[r.Intn(len(ks))]
+								variant := strings.ToUpper(sib)
+								if variant == sib {
+									variant = strings.ToLower(sib)
+								}
+								if _, has := bm[variant]; !has && variant != sib {
+									path[len(path)-1] = variant
+									caseSiblings++
+								}
+							}
 						case c < 8:
 							// new multi-level path
 							var maps [][]string
@@ -375,7 +408,7 @@ func init() {
 					}
 				}
 				e.Src = src.String()
-				e.NT = (copies > 0 && modsAfterCopy > 0) || deepNew > 0
+				e.NT = (copies > 0 && modsAfterCopy > 0) || deepNew > 0 || caseSiblings > 0
 				exp, _ := json.Marshal(e)
 				cases = append(cases, &proto.Case{ID: "c12-" + id, Op: "prog", Block: src.String(), Expect: exp, TimeoutMs: 60000})
 			}
